@@ -259,6 +259,16 @@ class VMap(V):
     self.is_counter = False     # collections.Counter: a missing key counts 0, update() ADDS the other counter
 
 
+class VCounterView(V):
+  """(key, count) pairs of a collections.Counter - `.items()`, `.most_common(n)`, `sorted(...)` of those, a prefix slice, or
+  `dict(...)` of one: SOME `limit` of its entries (all of them when limit is None).  Which entries a sort puts first is not
+  modelled: every choice of `limit` entries is possible - enough to decide whether counts survive."""
+  __slots__ = ('m', 'limit')
+
+  def __init__(self, m, limit=None):
+    self.m, self.limit = m, limit
+
+
 class VLock(V):
   __slots__ = ('name', 'held', 'events', 'reentrant', 'cond', 'f_notify', 'f_notify_all', 'recheck', 'last_release')
 
